@@ -328,6 +328,20 @@ impl Response {
                     u32::from_le_bytes(payload[offset..offset + 4].try_into().unwrap()) as usize;
                 offset += 4;
 
+                // Every value occupies at least its 4-byte length prefix, so the counts
+                // announced by the frame must fit in what is left of the payload. Rows
+                // without columns carry no bytes at all and cannot be bounded: reject them.
+                let remaining = payload.len() - offset;
+                let needed = row_count
+                    .checked_mul(col_count)
+                    .and_then(|n| n.checked_mul(4));
+                if (col_count == 0 && row_count > 0) || needed.is_none_or(|n| n > remaining) {
+                    return Err(TcpError::InvalidMessage(format!(
+                        "Row count {} x {} columns exceeds payload",
+                        row_count, col_count
+                    )));
+                }
+
                 let mut data = Vec::with_capacity(row_count.min(payload.len()));
                 for _ in 0..row_count {
                     let mut row = Vec::with_capacity(col_count.min(payload.len()));
